@@ -365,6 +365,10 @@ class NotConst(Exception):
     pass
 
 
+STR_PURE = {"strip", "lstrip", "rstrip", "lower", "upper", "casefold", "title", "capitalize", "replace", "startswith", "endswith",
+            "removeprefix", "removesuffix"}
+
+
 def const_eval(n, consts, bound=None):
     """the value of an expression made of constants only: literals, known constant names, tuples with *spread, + of tuples / strings,
     f-strings, comprehensions over constant sequences, slices with constant bounds, tuple(..) / reversed(..) / sorted(..)"""
@@ -429,6 +433,29 @@ def const_eval(n, consts, bound=None):
         except TypeError:
             raise NotConst
         return r
+    if isinstance(n, ast.Subscript) and isinstance(n.value, ast.Dict) and all(isinstance(k, ast.Constant) for k in n.value.keys):
+        # {"a": x, ..}[key]: the entry (a key that is not there raises - no value)
+        key = const_eval(n.slice, consts, bound)
+        hit = [v for k, v in zip(n.value.keys, n.value.values) if type(k.value) is type(key) and k.value == key]
+        if not hit:
+            raise NotConst
+        return const_eval(hit[-1], consts, bound)
+    if isinstance(n, ast.Call) and isinstance(n.func, ast.Name) and n.func.id == "str" and len(n.args) == 1 and not n.keywords:
+        v = const_eval(n.args[0], consts, bound)
+        if isinstance(v, str):
+            return v
+        raise NotConst
+    if isinstance(n, ast.Call) and isinstance(n.func, ast.Attribute) and n.func.attr in STR_PURE and not n.keywords:
+        v = const_eval(n.func.value, consts, bound)
+        args = [const_eval(a, consts, bound) for a in n.args]
+        if isinstance(v, str) and all(isinstance(a, (str, int)) for a in args):
+            try:
+                r = getattr(v, n.func.attr)(*args)
+            except Exception:
+                raise NotConst
+            if isinstance(r, (str, bool)):
+                return r
+        raise NotConst
     if isinstance(n, ast.Subscript):
         v = const_eval(n.value, consts, bound)
         if not isinstance(v, (tuple, str)):
@@ -477,10 +504,24 @@ def const_dict_lit(val, fnames=()):
             and all(k.arg is not None and is_const_lit(k.value) for k in val.keywords):
         d = ast.Dict(keys=[ast.copy_location(ast.Constant(value=k.arg), val) for k in val.keywords], values=[k.value for k in val.keywords])
         return ast.copy_location(d, val)
-    if isinstance(val, ast.Dict) and val.keys and all(k is not None and const_key(k) for k in val.keys) \
-            and all(is_const_lit(v) or closed_lambda(v) or (isinstance(v, ast.Name) and v.id in fnames) for v in val.values):
+    def ok(v):
+        if is_const_lit(v) or closed_lambda(v):
+            return True
+        if isinstance(v, ast.Name):
+            # a function / class / imported name of the module, bound once; or a builtin type used as a value
+            return v.id in fnames or v.id in ("float", "int", "str", "bool", "complex", "list", "tuple", "dict", "object")
+        if isinstance(v, ast.Tuple) and not any(isinstance(x, ast.Starred) for x in v.elts):
+            return all(ok(x) for x in v.elts)
+        if isinstance(v, ast.Dict) and all(k is not None and const_key(k) for k in v.keys):
+            return all(ok(x) for x in v.values)
+        return False
+    if isinstance(val, ast.Dict) and val.keys and all(k is not None and const_key(k) for k in val.keys) and all(ok(v) for v in val.values):
         return val
     return None
+
+
+def _has_mutable_entries(d):
+    return isinstance(d, ast.Dict) and any(isinstance(v, (ast.Dict, ast.List, ast.Set)) for v in d.values)
 
 
 def closed_lambda(v, stable=None):
@@ -501,9 +542,60 @@ def closed_lambda(v, stable=None):
     return True
 
 
-def read_only_refs(tree, is_ref, _depth=0):
+def _enclosing_fn(parent, n):
+    while n is not None and not isinstance(n, (ast.FunctionDef, ast.AsyncFunctionDef, ast.Lambda)):
+        n = parent.get(id(n))
+    return n
+
+
+def _extracted_ro(x, parent, depth=0):
+    """x is an expression that yields an ENTRY of a table whose entries are themselves dictionaries / lists (TABLE[k], TABLE.get(k, {}),
+    an item of TABLE.values()): the entry is the table's own object, so the table is a constant only if the entry is only read too -
+    indexed, looked up, iterated, copied (dict(x) / list(x) / {**x}), spread; bound to a name, every use of that name likewise"""
+    p_ = parent.get(id(x))
+    while isinstance(p_, (ast.IfExp, ast.BoolOp)) and (x is not getattr(p_, "test", None)):
+        x, p_ = p_, parent.get(id(p_))
+    g_ = parent.get(id(p_)) if p_ is not None else None
+    if isinstance(p_, ast.Subscript) and p_.value is x and isinstance(p_.ctx, ast.Load):
+        return True
+    if isinstance(p_, ast.Attribute) and p_.value is x and p_.attr in RO_DICT_METHODS and isinstance(g_, ast.Call) and g_.func is p_:
+        return True
+    if isinstance(p_, ast.Compare):
+        return True
+    if isinstance(p_, (ast.For, ast.comprehension)) and p_.iter is x:
+        return True
+    if isinstance(p_, ast.Call) and isinstance(p_.func, ast.Name) and p_.func.id in RO_DICT_CALLS and any(a is x for a in p_.args):
+        return True
+    if isinstance(p_, ast.keyword) and p_.arg is None and p_.value is x:
+        return True
+    if isinstance(p_, (ast.FormattedValue, ast.Starred)):
+        return True
+    if isinstance(p_, ast.Dict) and any(k is None and v is x for k, v in zip(p_.keys, p_.values)):
+        return True
+    if isinstance(p_, ast.Call) and isinstance(p_.func, ast.Attribute) and p_.func.attr == "update" and any(a is x for a in p_.args) and p_.func.value is not x:
+        return True
+    if isinstance(p_, ast.Expr):
+        return True
+    if isinstance(p_, (ast.Assign, ast.AnnAssign)) and getattr(p_, "value", None) is x and depth < 2:
+        tg = p_.targets if isinstance(p_, ast.Assign) else [p_.target]
+        if len(tg) == 1 and isinstance(tg[0], ast.Name):
+            fn = _enclosing_fn(parent, p_)
+            if fn is None or isinstance(fn, ast.Lambda):
+                return False
+            nm = tg[0].id
+            for n in ast.walk(fn):
+                if isinstance(n, ast.Name) and n.id == nm and isinstance(n.ctx, ast.Load) and not _extracted_ro(n, parent, depth + 1):
+                    return False
+                if isinstance(n, ast.Name) and n.id == nm and isinstance(n.ctx, ast.Del):
+                    return False
+            return True
+    return False
+
+
+def read_only_refs(tree, is_ref, _depth=0, nested=False):
     """every node r of tree with is_ref(r) stands where the dictionary it names is only read: r[k], r.get/items/keys/values/copy(..),
-    k in r, iteration, dict(r) / len(r) / sorted(r) .., **r, other.update(r), helper(r) where the helper only reads that parameter"""
+    k in r, iteration, dict(r) / len(r) / sorted(r) .., **r, other.update(r), helper(r) where the helper only reads that parameter.
+    nested: the table's entries are dictionaries / lists themselves - an entry taken out of it must only be read as well"""
     funcs = {n.name: n for n in getattr(tree, "body", []) if isinstance(n, ast.FunctionDef)}
     parent = {}
     for n in ast.walk(tree):
@@ -515,17 +607,39 @@ def read_only_refs(tree, is_ref, _depth=0):
         p_ = parent.get(id(r))
         g_ = parent.get(id(p_)) if p_ is not None else None
         if isinstance(p_, ast.Subscript) and p_.value is r and isinstance(p_.ctx, ast.Load):
+            if nested and not _extracted_ro(p_, parent):
+                return False
             continue
         if isinstance(p_, ast.Attribute) and p_.value is r and p_.attr in RO_DICT_METHODS and isinstance(g_, ast.Call) and g_.func is p_:
+            if nested and p_.attr in ("get", "values", "items", "copy"):
+                if p_.attr == "get" and not _extracted_ro(g_, parent):
+                    return False
+                if p_.attr != "get":
+                    # the entries reach loop variables / a shallow copy: followed only for the plain `for k, v in T.items()` whose v is read
+                    gp = parent.get(id(g_))
+                    if not (isinstance(gp, (ast.For, ast.comprehension)) and gp.iter is g_):
+                        return False
+                    fn = _enclosing_fn(parent, gp)
+                    names = [t.id for t in ast.walk(gp.target) if isinstance(t, ast.Name)]
+                    scope = fn if fn is not None and not isinstance(fn, ast.Lambda) else tree
+                    for n in ast.walk(scope):
+                        if isinstance(n, ast.Name) and n.id in names and isinstance(n.ctx, ast.Load) and not _extracted_ro(n, parent, 1):
+                            return False
             continue
         if isinstance(p_, ast.Compare) and any(c is r for c in p_.comparators) and all(isinstance(o, (ast.In, ast.NotIn)) for o in p_.ops):
             continue
         if isinstance(p_, (ast.For, ast.comprehension)) and p_.iter is r:
             continue
         if isinstance(p_, ast.Call) and isinstance(p_.func, ast.Name) and p_.func.id in RO_DICT_CALLS and any(a is r for a in p_.args):
+            if nested and p_.func.id in ("dict", "list", "tuple", "iter", "zip", "enumerate", "reversed", "sorted"):
+                return False        # a shallow copy / iterator still hands out the table's own entries: not followed
             continue
         if isinstance(p_, ast.keyword) and p_.arg is None and p_.value is r:
             continue
+        if isinstance(p_, ast.FormattedValue) and p_.value is r:
+            continue            # printed in a message
+        if isinstance(p_, ast.Starred) and p_.value is r and isinstance(p_.ctx, ast.Load):
+            continue            # spread into a call / display
         if isinstance(p_, ast.Dict) and any(k is None and v is r for k, v in zip(p_.keys, p_.values)):
             continue
         if isinstance(p_, ast.Call) and isinstance(p_.func, ast.Attribute) and p_.func.attr == "update" and any(a is r for a in p_.args) and p_.func.value is not r:
@@ -592,6 +706,13 @@ class ModTab:
                 seen[tg] = seen.get(tg, 0) + 1
                 if is_const_lit(val) and isinstance(val, (ast.Tuple,)) or (isinstance(val, ast.Constant) and isinstance(val.value, str)):
                     self.consts[tg] = val
+                elif isinstance(val, ast.Constant) and isinstance(val.value, (int, float)) and not isinstance(val.value, bool) and n in tree.body:
+                    self.consts[tg] = val           # a named number (N_REQUIRED = 3)
+                elif isinstance(val, ast.List) and val.elts and all(is_const_lit(x) for x in val.elts) and n in tree.body:
+                    # a list of names / numbers that is only ever read: every use may as well see the display
+                    if read_only_refs(tree, lambda r, tg=tg: isinstance(r, ast.Name) and r.id == tg and isinstance(r.ctx, ast.Load)):
+                        self.consts[tg] = val
+                        self.dict_consts = getattr(self, "dict_consts", set()) | {tg}
                 elif isinstance(val, (ast.Tuple, ast.BinOp, ast.Subscript, ast.Call)) and n in tree.body and not isinstance(n, ast.AugAssign):
                     # a tuple of names put together from other constants: (*A, *(f"{x}_cov" for x in A), "Phi"), A + ("x",), A[:3]
                     try:
@@ -602,7 +723,8 @@ class ModTab:
                         pass
                 elif const_dict_lit(val, self._fnames(tree)) is not None and n in tree.body:
                     # a table that is only ever read (handing it to a function, storing into it, returning it: not a constant)
-                    if read_only_refs(tree, lambda r, tg=tg: isinstance(r, ast.Name) and r.id == tg and isinstance(r.ctx, ast.Load)):
+                    if read_only_refs(tree, lambda r, tg=tg: isinstance(r, ast.Name) and r.id == tg and isinstance(r.ctx, ast.Load),
+                                      nested=_has_mutable_entries(const_dict_lit(val, self._fnames(tree)))):
                         self.consts[tg] = const_dict_lit(val, self._fnames(tree))
                         self.dict_consts = getattr(self, "dict_consts", set()) | {tg}
         for n in ast.walk(tree):
@@ -639,7 +761,14 @@ class ModTab:
                     cnt[n.name] = cnt.get(n.name, 0) + 1
                 elif isinstance(n, ast.Name) and isinstance(n.ctx, (ast.Store, ast.Del)):
                     cnt[n.id] = cnt.get(n.id, 0) + 1
-            self._fn_names = {n.name for n in tree.body if isinstance(n, ast.FunctionDef) and cnt.get(n.name) == 1}
+            self._fn_names = {n.name for n in tree.body if isinstance(n, (ast.FunctionDef, ast.ClassDef)) and cnt.get(n.name) == 1}
+            # names bound by an import and nowhere else
+            for n in tree.body:
+                if isinstance(n, (ast.Import, ast.ImportFrom)):
+                    for a in n.names:
+                        nm_ = (a.asname or a.name).split(".")[0]
+                        if cnt.get(nm_, 0) == 0:
+                            self._fn_names.add(nm_)
         return self._fn_names
 
     def fresh(self, base):
@@ -768,13 +897,13 @@ class Desugar:
                             found = ast.fix_missing_locations(lit_of(val, v))
                     except (NotConst, RecursionError):
                         pass
-                if len(hits) == 1 and not ok and const_dict_lit(v) is not None:
+                if len(hits) == 1 and not ok and const_dict_lit(v, m._fnames(m.tree)) is not None:
                     # a class-level table: a constant when every `<x>.NAME` / bare NAME in the class body anywhere in the program only reads it
                     def is_ref(r):
                         return (isinstance(r, ast.Attribute) and r.attr == attr and isinstance(r.ctx, ast.Load)) or \
                                (isinstance(r, ast.Name) and r.id == attr and isinstance(r.ctx, ast.Load))
-                    if all(read_only_refs(mod.tree, is_ref) for mod in self.mods.values()):
-                        found = const_dict_lit(v)
+                    if all(read_only_refs(mod.tree, is_ref, nested=_has_mutable_entries(const_dict_lit(v, m._fnames(m.tree)))) for mod in self.mods.values()):
+                        found = const_dict_lit(v, m._fnames(m.tree))
                 break
         if found is not None:
             # stored anywhere as an attribute (x.NAME = ..) or re-defined in a subclass: not a constant
@@ -1506,9 +1635,10 @@ class FnPE:
         if isinstance(t, ast.Subscript):
             if isinstance(t.value, ast.Name) and isinstance(env.get(t.value.id), Rec):
                 r = env[t.value.id]
-                if const_key(t.slice):
-                    f = r.fields.get(t.slice.value) or self.field(r.var, t.slice.value)
-                    r.fields[t.slice.value] = f
+                sl_ = t.slice if const_key(t.slice) else self.expr(t.slice, env, None)      # TABLE[label] with a known label is a key too
+                if const_key(sl_):
+                    f = r.fields.get(sl_.value) or self.field(r.var, sl_.value)
+                    r.fields[sl_.value] = f
                     return name(f, ast.Store(), t)
                 pre.extend(self.put_back(t.value.id, env, t))
             if isinstance(t.value, ast.Name) and isinstance(env.get(t.value.id), Tup):
@@ -2551,6 +2681,8 @@ class FnPE:
             return fn, fn, None, "function"
         if not fn.name.startswith("_") or fn.name.startswith("__"):
             return None
+        if any(ast.unparse(d.func if isinstance(d, ast.Call) else d).split(".")[-1] not in ("staticmethod", "classmethod") for d in fn.decorator_list):
+            return None             # a decorated helper (memoised, wrapped ..) is not its body: a call of it stays a call
         if id(fn) in self.D.stack or fn is self.fn or any(x is fn for x in getattr(self, "inline_stack", [])):
             return None
         # (exact class: the helper is rewritten in place, in the context of that class - not its class-independent normal form)
